@@ -169,10 +169,55 @@ def body(run: Run, replay):
             # explicit solver objects: same apparent mass
             if cfg["sform"] != "cb" and rep == 0:
                 nzf = freq != 0                 # 0 Hz with rigid-body modes is outside FreqDirect's documented domain
-                alt = frclim.calcAM(S_in, freq[nzf], fs=ode.FreqDirect(Ms, Bs, Ks))
+                fsobj = ode.FreqDirect(Ms, Bs, Ks)
+                alt = frclim.calcAM(S_in, freq[nzf], fs=fsobj)
                 if not np.allclose(alt, SAM[:, nzf, :], rtol=1e-7, atol=1e-9 * np.abs(SAM[:, nzf, :]).max()):
                     run.violation("calcAM: FreqDirect route differs from the default route", {"cfg": cfg}, dict(tags, fn="calcAM"))
+                # the SAME solver object on another frequency set (same length and end points, other interior points)
+                fB = freq[nzf].copy()
+                fB[1:-1] = fB[1:-1] * 1.21
+                altB = frclim.calcAM(S_in, fB, fs=fsobj)
+                for j, f in enumerate(fB):
+                    want = terms.ev(T["am"], {"M": Ms, "B": Bs, "K": Ks, "T": Ts, "W": 2 * np.pi * f})
+                    if not np.abs(altB[:, j, :] - want).max() <= 1e-7 * np.abs(want).max():
+                        run.violation("calcAM with a reused solver object: apparent mass at %.4g Hz (second frequency set) is not the inverse of the boundary accelerance" % f,
+                                      {"cfg": cfg}, dict(tags, fn="calcAM", clause="solver-reuse"))
+                        break
             run.trace_validated()
+    # a Craig-Bampton model given directly (modal q-set: identity mass, diagonal stiffness and damping) with a fixed-interface mode
+    # that has almost no stiffness but real damping (a mass on a dashpot): still an ordinary elastic equation of the q-set
+    for trial in range(6 if quick else 40):
+        nb, nq = int(rng.integers(1, 4)), int(rng.integers(2, 5))
+        n = nb + nq
+        a_ = rng.standard_normal((n, n))
+        M = a_ @ a_.T / n + 2 * np.eye(n)
+        M[nb:, nb:] = np.eye(nq)
+        kq = rng.uniform(200.0, 5000.0, nq)
+        kq[0] = [1e-3, 4e-3, 1e-6][trial % 3]              # below the rigid-body auto-detection threshold of the ODE solvers
+        bq = 2 * 0.03 * np.sqrt(kq)
+        bq[0] = rng.uniform(0.3, 2.0)
+        K = np.diag(np.r_[np.zeros(nb), kq])
+        B = np.diag(np.r_[np.zeros(nb), bq])
+        perm = rng.permutation(n)
+        bdof = np.array([int(np.nonzero(perm == j)[0][0]) for j in range(nb)])
+        Mp, Bp, Kp = (X[np.ix_(perm, perm)] for X in (M, B, K))
+        fq = np.array([0.05, 0.4, 2.0, 9.0])
+        run.case(("softq", trial), part="NT coupling vs direct coupled solution")
+        tags = {"nb": nb, "sform": "cb", "lform": "cb", "damp": "softq", "fpos": "none"}
+        try:
+            AMc = frclim.calcAM([Mp, Bp, Kp, bdof], fq)
+        except Exception as ex:
+            run.violation("calcAM raised %r on a Craig-Bampton model with a nearly free, damped fixed-interface mode" % ex, {"kq": kq, "bq": bq}, dict(tags, fn="calcAM"))
+            continue
+        sel = np.hstack((np.eye(nb), np.zeros((nb, nq))))
+        for j, f in enumerate(fq):
+            want = terms.ev(T["am"], {"M": M, "B": B, "K": K, "T": sel, "W": 2 * np.pi * f})
+            if not np.abs(AMc[:, j, :] - want).max() <= 1e-7 * np.abs(want).max():
+                run.violation("calcAM (Craig-Bampton form, fixed-interface mode with stiffness %g and damping %.3g): apparent mass at %.4g Hz is not the inverse of the "
+                              "boundary accelerance (relative %.3g)" % (kq[0], bq[0], f, np.abs(AMc[:, j, :] - want).max() / np.abs(want).max()),
+                              {"kq": kq, "bq": bq}, dict(tags, fn="calcAM", clause="softq"))
+                break
+        run.trace_validated()
 
 
 if __name__ == "__main__":
